@@ -1,7 +1,7 @@
 (* Tie (c): SdoServer.segmented_upload as translated from the CURRENT source text (Gen/Src.v) computes the
    command byte and the next toggle of the model's segmented_upload (Model/SdoServer.v, C02). *)
 From Coq Require Import ZArith List Bool Lia.
-From CV Require Import Base.Val Base.Bytes Base.Tys Base.PyLib Gen.SdoTables Gen.Src Model.Codec Model.SdoServer.
+From CV Require Import Base.Val Base.Bytes Base.Tys Base.PyLib Gen.SdoTables Gen.SrcC02 Model.Codec Model.SdoServer.
 Import ListNotations.
 Open Scope Z_scope.
 
